@@ -18,6 +18,7 @@ Requests / answers
   trxd.tx.parse <octets>             -> ok <TxMsg> | <exception>
   trxd.rx.validate / gen / send / parse : same for RxMsg (parse on a fresh RxMsg())
   trxd.rx.reparse <RxMsg> <octets>   -> parse_msg on an existing object
+  trxd.tx.rt L <TxMsg>              -> TxMsg().parse_msg(m.gen_msg(L)): ok <TxMsg> | <exception>;  trxd.rx.rt likewise
   trxd.tx.trans V <TxMsg>           -> ok <RxMsg> | <exception>          (V = ver argument, `-` = None)
   trxd.rx.trans V <RxMsg>           -> ok <TxMsg> | <exception>
 -/
@@ -135,6 +136,8 @@ def handle : List String → Option String
       let m ← rx? [ver, fn, tn, rssi, toa, mod, nope, set, tsc, ci, burst]
       let b ← bytes? b
       pure (outcome showRx (m.parseMsgFrom b))
+  | "trxd.tx.rt" :: l :: m => do let l ← bool? l; let m ← tx? m; pure (outcome showTx (m.genMsg l >>= TxMsg.parseMsg))
+  | "trxd.rx.rt" :: l :: m => do let l ← bool? l; let m ← rx? m; pure (outcome showRx (m.genMsg l >>= RxMsg.parseMsg))
   | "trxd.tx.trans" :: v :: m => do let v ← optInt? v; let m ← tx? m; pure (outcome showRx (m.trans v))
   | "trxd.rx.trans" :: v :: m => do let v ← optInt? v; let m ← rx? m; pure (outcome showTx (m.trans v))
   | _ => none
